@@ -49,6 +49,7 @@ def is_known(f):
         if not m:
             continue
         if all(s in fn for s in m.get('function', [])) and all(s.lower() in rel.lower() for s in m.get('relation', [])) \
+                and all(s.lower() in str(f.get('why', '')).lower() for s in m.get('why', [])) \
                 and all(s in json.dumps(f.get('input'), default=str) for s in m.get('input_contains', [])) \
                 and all(s.lower() in json.dumps(f.get('observed'), default=str).lower() for s in m.get('observed_contains', [])):
             return k
@@ -160,7 +161,14 @@ def sw_pattern_alignment_tempo(rng, n):
     return O.sweep(rng, max(5, n // 2))
 
 
-SWEEPS = [sw_pattern_alignment_tempo, sw_events, sw_transcription, sw_melody, sw_multipitch, sw_hierarchy, sw_segment, sw_keychord, sw_chord, sw_intervals]
+@_quiet
+def sw_beat(rng, n):
+    from mir_eval import beat as B
+    from harness.oracles import beat as O
+    return O.search(B, rng, budget=max(2, n // 20))
+
+
+SWEEPS = [sw_beat, sw_pattern_alignment_tempo, sw_events, sw_transcription, sw_melody, sw_multipitch, sw_hierarchy, sw_segment, sw_keychord, sw_chord, sw_intervals]
 
 
 def register(fn):
